@@ -18,6 +18,8 @@ type SWAPI interface {
 	Append(data string) error         // v2 only
 	Dup(w io.Writer) SWAPI            // v2 only
 	Merge(data string, o SWAPI) error // v2 only
+	// Renew changes the naming systems of the SAME context in place and returns a new writer on it.
+	Renew(w io.Writer, left, right string, namers []string) SWAPI
 }
 
 type ETAPI interface {
@@ -36,6 +38,29 @@ type SnippetImpl struct {
 	NewET        func(w io.Writer) ETAPI
 	ArgsWith     func(a map[interface{}]interface{}, k, v interface{}) map[interface{}]interface{}
 	ArgsWithArgs func(a, b map[interface{}]interface{}) map[interface{}]interface{}
+	// ExecuteBody runs the real executeBody (verif hook) over w for a generator with k types whose hooks
+	// write one chunk each (ignoring write results) and whose hook `failAt` ("", "init", "type<j>", "fin")
+	// returns an error.
+	ExecuteBody func(w io.Writer, k int, failAt string) error
+}
+
+// BodyHookErr is the text of the error a failing hook returns in ExecuteBody.
+const BodyHookErr = "injected-hook-failure"
+
+// BodyChunks lists the chunks the hooks of ExecuteBody write, in order.
+func BodyChunks(k int, failAt string) (chunks []string, hookFails bool) {
+	chunks = append(chunks, "init;")
+	if failAt == "init" {
+		return chunks, true
+	}
+	for j := 1; j <= k; j++ {
+		chunks = append(chunks, fmt.Sprintf("type%d;", j))
+		if failAt == fmt.Sprintf("type%d", j) {
+			return chunks, true
+		}
+	}
+	chunks = append(chunks, "fin;")
+	return chunks, failAt == "fin"
 }
 
 type injErr struct{ idx int }
@@ -57,6 +82,9 @@ func (w *faultyWriter) Write(p []byte) (int, error) {
 	w.chunks = append(w.chunks, string(p))
 	return len(p), nil
 }
+
+// io.WriteString prefers this method: it must behave like Write
+func (w *faultyWriter) WriteString(s string) (int, error) { return w.Write([]byte(s)) }
 
 type recWriter struct{ chunks []string }
 
@@ -285,6 +313,64 @@ func SnippetProperty(impl SnippetImpl) Property {
 					}
 					refresh(i, parseFailed)
 					outs[idx] = dump(ret)
+				case "etwrite":
+					i := Atoi(f[2])
+					before := fw[i].calls
+					hadErr := et[i].Error() != nil
+					var err error
+					if f[3] == "s" {
+						_, err = io.WriteString(et[i], Unhex(f[4]))
+					} else {
+						_, err = et[i].Write([]byte(Unhex(f[4])))
+					}
+					if hadErr && fw[i].calls != before {
+						fail("tracker-reaches-writer", "the underlying writer was called after the ErrorTracker recorded an error")
+					}
+					for c := before; c < fw[i].calls; c++ {
+						if fw[i].fail[c] && (et[i].Error() == nil || err == nil) {
+							fail("tracker-lost-error", fmt.Sprintf("write call %d failed (mode %s) but the ErrorTracker did not record/return it", c, f[3]))
+						}
+					}
+					if hadErr && err == nil {
+						fail("tracker-not-sticky", "a write after the first failure succeeded")
+					}
+					outs[idx] = dump(errClass(err))
+				case "renew":
+					namers = UnhexList(f[2])
+					sw[0] = sw[0].Renew(sinkOf(0), left, right, namers)
+					firstErr[0] = ""
+					lastClass[0] = "-"
+					outs[idx] = dump("-")
+				case "body":
+					i := Atoi(f[2])
+					k, failAt := Atoi(f[5]), Unhex(f[6])
+					chunks, hf := BodyChunks(k, failAt)
+					if HexList(chunks) != f[3] || B01(hf) != f[4] {
+						fail("engine-facts-stale", "body chunks in the line are stale (harness)")
+					}
+					before := fw[i].calls
+					etHad := et[i] != nil && et[i].Error() != nil
+					err := impl.ExecuteBody(sinkOf(i), k, failAt)
+					cls := errClass(err)
+					if cls == "other" {
+						cls = "exec"
+					}
+					injected := -1
+					for c := before; c < fw[i].calls; c++ {
+						if fw[i].fail[c] && injected < 0 {
+							injected = c
+						}
+					}
+					if hf && (err == nil || !strings.Contains(err.Error(), BodyHookErr)) {
+						fail("hook-error-swallowed", fmt.Sprintf("hook %s failed but executeBody returned %v", failAt, err))
+					}
+					if !hf && (injected >= 0 || etHad) && err == nil {
+						fail("body-write-error-swallowed", fmt.Sprintf("a write through the tracker failed (call %d) but executeBody returned nil", injected))
+					}
+					if injected >= 0 && fw[i].calls != injected+1 {
+						fail("tracker-reaches-writer", "the underlying writer was called after the first failed write")
+					}
+					outs[idx] = dump(cls)
 				case "dup":
 					sw[1] = sw[0].Dup(sinkOf(1))
 					lastClass[1] = lastClass[0]
@@ -434,6 +520,24 @@ func snippetGen(c *Ctx, impl SnippetImpl) {
 			}
 		}
 		c.Case(lines, Meta{Nontrivial: k >= 2, Features: feats})
+		if it%3 == 0 {
+			// the context's naming systems change between writers (same context object)
+			var ns2 []string
+			for _, nm := range allNamers {
+				if r.Chance(1, 2) {
+					ns2 = append(ns2, nm)
+				}
+			}
+			l2 := []string{Line("sw", "new", "-", "-", "0", "0", Hex(d[0]), Hex(d[1]), HexList(namers)),
+				mkDo(0, r.Pick(swTemplates[:9]), d, namers), Line("sw", "renew", HexList(ns2))}
+			for j := 0; j < 2; j++ {
+				l2 = append(l2, mkDo(0, r.Pick(swTemplates[4:11]), d, ns2))
+			}
+			c.Case(l2, Meta{Nontrivial: true, Features: []string{"renew-context-namers"}})
+		}
+		if it%3 == 1 {
+			trackerCases(c, r, failsStr)
+		}
 		if it%4 == 0 {
 			// Args compositions
 			variant := "v1"
@@ -464,6 +568,65 @@ func snippetGen(c *Ctx, impl SnippetImpl) {
 			}
 			c.Case(al, Meta{Nontrivial: true, Features: []string{"args"}})
 		}
+	}
+}
+
+// trackerCases: straight ErrorTracker writes (Write and io.WriteString) and executeBody over a failing writer
+func trackerCases(c *Ctx, r *RNG, failsStr func([]int) string) {
+	// straight ErrorTracker writes (Write and io.WriteString) and executeBody over a failing writer
+	fail := []int{r.Intn(5)}
+	l3 := []string{Line("sw", "new", failsStr(fail), "-", "1", "0", Hex("$"), Hex("$"), "-")}
+	for j := r.Intn(4); j > 0; j-- {
+		l3 = append(l3, Line("sw", "etwrite", "0", r.Pick([]string{"w", "s"}), Hex(r.Pick([]string{"x", "data", ""}))))
+	}
+	c.Case(l3, Meta{Nontrivial: true, Features: []string{"tracker-direct"}})
+	kk := r.Intn(4)
+	failAt := r.Pick([]string{"", "", "init", "fin", "type1", "type2"})
+	chunks, hf := BodyChunks(kk, failAt)
+	var ff []int
+	if r.Chance(2, 3) {
+		ff = []int{r.Intn(kk + 2)}
+	}
+	l4 := []string{Line("sw", "new", failsStr(ff), "-", B01(r.Chance(1, 4)), "0", Hex("$"), Hex("$"), "-"),
+		Line("sw", "body", "0", HexList(chunks), B01(hf), Itoa(kk), Hex(failAt))}
+	c.Case(l4, Meta{Nontrivial: true, Features: []string{"executeBody-over-failing-writer"}})
+}
+
+// ErrTrackerProperty is the ErrorTracker/executeBody part of the "sw" component on its own (used by C13).
+func ErrTrackerProperty(impl SnippetImpl) Property {
+	p := SnippetProperty(impl)
+	p.Gen = func(c *Ctx) {
+		r := c.RNG("tracker")
+		failsStr := func(fs []int) string {
+			if len(fs) == 0 {
+				return "-"
+			}
+			s := make([]string, len(fs))
+			for i, f := range fs {
+				s[i] = Itoa(f)
+			}
+			return strings.Join(s, ",")
+		}
+		n := c.Scale(4000, 80000)
+		for i := 0; i < n; i++ {
+			trackerCases(c, r, failsStr)
+		}
+	}
+	return p
+}
+
+// Combine merges properties that serve different protocol components into one: cases are generated
+// by each in turn and executed by the one whose component (first protocol field) matches.
+func Combine(parts map[string]Property) Property {
+	return Property{
+		Gen: func(c *Ctx) {
+			for _, k := range SortedKeys(parts) {
+				parts[k].Gen(c)
+			}
+		},
+		Exec: func(lines []string) ([]string, []Failure) {
+			return parts[Fields(lines[0])[0]].Exec(lines)
+		},
 	}
 }
 
